@@ -5,7 +5,7 @@ import os
 from checks import lib
 
 PROPERTY = "C32"
-LEAN_MODULES = ["KafVerif.Props.C32", "KafVerif.Props.C32Locks"]
+LEAN_MODULES = ["KafVerif.Props.C32", "KafVerif.Props.C32Locks", "KafVerif.Props.C32Gone"]
 OBLIGATIONS = [
     "KafVerif.C32.http_ok_sound",
     "KafVerif.C32.only_complete_returns_envelope",
@@ -25,6 +25,9 @@ OBLIGATIONS = [
     "KafVerif.C32.source_part_handler_holds_lock_across_s3",
     "KafVerif.C32.source_complete_abort_are_one_lock_region",
     "KafVerif.C32.http_ok_sound_source_locking",
+    "KafVerif.C32.complete_ok_implies_object_assembled",
+    "KafVerif.C32.complete_after_abort_is_error",
+    "KafVerif.C32.noSuchUploadOk_violates",
 ]
 BUILDS = {"h": ("root", "./cmd/proxy", ["C30", "C32"])}
 LEVEL_TEXT = ("Lean 4 theorems: after every history of multipart session operations (any part numbers/sizes, re-PUTs, S3 "
@@ -35,7 +38,10 @@ LEVEL_TEXT = ("Lean 4 theorems: after every history of multipart session operati
               "record interleaved with the other session operations) under the code's locking — session lock held across the "
               "S3 call — every lock-free state is a state of the sequential machine (locked_schedules_are_serial), so the "
               "same soundness holds (http_ok_sound_concurrent); witnesses for the split-lock and the retry-with-consumed-body "
-              "variants. Tied to the source by driving the real HTTP handlers with a ghost S3 (real multipart "
+              "variants; and for every history that also contains S3-side aborts of the in-flight upload and requests running on a "
+              "session object they looked up before the lock holder deleted it: a completion answered 200 found the upload id "
+              "still known to S3 and the object assembled (complete_ok_implies_object_assembled), after an abort no completion "
+              "is answered 200 (complete_after_abort_is_error). Tied to the source by driving the real HTTP handlers with a ghost S3 (real multipart "
               "semantics) and a scripted broker socket, diffed against the model, plus a direct monitor.")
 LEVEL_NOTE = ("Payload bytes are abstract chunks in the model (hash functions never computed); one session at a time; the "
               "session lookup is merged with taking the session lock in the concurrent model; S3 "
@@ -44,6 +50,7 @@ LEVEL_NOTE = ("Payload bytes are abstract chunks in the model (hash functions ne
 TECHNIQUE = "Lean 4 proof (invariant over a transition system) + Go/Lean differential correspondence + direct monitor"
 ASSUMPTIONS = [
     "S3: CompleteMultipartUpload builds the object from exactly the listed parts (ascending numbers, matching ETags); a failed UploadPart stores nothing; S3 consumes the request body of a call whether or not the call then fails (fail-after-read), except for connection-level failures (fail-before-read)",
+    "S3 forgets a multipart upload id when the upload is completed or aborted (by the proxy or behind its back) and answers every call naming it with the API error NoSuchUpload, never with success",
     "one upload session at a time; its requests may overlap arbitrarily (sync.Mutex gives mutual exclusion; the harness overlaps requests at the S3 UploadPart seam)",
     "broker replies are one of: ack, per-partition error code, response without our partition, undecodable frame, connection closed, connection refused",
 ]
@@ -288,6 +295,44 @@ def gen_par_case(rng, focused=False):
     return ops
 
 
+def gen_gone_case(rng, focused=False):
+    """The multipart upload id is gone from S3 WITHOUT having been completed when the completion runs: S3 answers
+    NoSuchUpload, which is an error of the completion (never "already completed").  (a) `lifecycle-abort`: a bucket
+    lifecycle rule / an operator aborted the upload behind the proxy's back, at any point of the session;
+    (b) `par abort complete/…`: the client's DELETE holds the session lock inside S3 AbortMultipartUpload while the
+    completion has already looked the session up and waits for the lock, then runs on the orphaned session;
+    (c) completion overlapping a part upload, repeated completion after a successful one (id gone because completed)."""
+    ops = ["new 0 %s" % rng.choice(["sha256", "sha256", "md5", "none"])]
+    nparts = rng.choice([1, 1, 1, 2]) if not focused else 1
+    last = rng.choice([1, 7, 100, 4096])
+    lens = [MIN_PART] * (nparts - 1) + [last]
+    fills = [rng.range(1, 250) for _ in lens]
+    alg = rng.choice(["-", "-", "md5", "sha256"])
+    ck = rng.choice(["absent", "absent", "right"])
+    ops.append("init %d %s %s 0 %s" % (sum(lens), alg, ck, ",".join("%d:%d" % x for x in zip(lens, fills))))
+    allok = ",".join("%d:ok" % n for n in range(1, nparts + 1))
+    br = "ack" if focused or rng.chance(3, 4) else broker(rng)
+    shape = rng.below(8) if not focused else rng.choice([0, 2])
+    parts = ["part %d %d %d 0" % (i, l, f) for i, (l, f) in enumerate(zip(lens, fills), 1)]
+    if shape in (0, 1):                    # lifecycle abort after the last part, then completion (and a repeated one)
+        ops += parts + ["lifecycle-abort", "complete %s 0 %s" % (allok, br)]
+        if shape == 1:
+            ops += ["complete %s 0 ack" % allok, "abort", "complete %s 0 ack" % allok]
+    elif shape in (2, 3):                  # client abort overlapping the completion
+        ops += parts + ["par abort complete/%s/0/%s" % (allok, br)]
+        if shape == 3:
+            ops.append("complete %s 0 ack" % allok)
+    elif shape == 4:                       # lifecycle abort before the (last) part: the part fails, nothing completes
+        ops += parts[:-1] + ["lifecycle-abort", parts[-1], "complete %s 0 %s" % (allok, br), parts[-1], "complete %s 0 ack" % allok]
+    elif shape == 5:                       # a re-PUT of the last part (idempotent, answered at once) arriving with the completion
+        ops += parts + ["par part:%d:%d:%d:0 complete/%s/0/%s" % (nparts, lens[-1], fills[-1], allok, br)]
+    elif shape == 6:                       # completion first (answered), then an abort of the session it deleted; repeated completion
+        ops += parts + ["par complete/%s/0/%s abort" % (allok, br), "complete %s 0 ack" % allok]
+    else:                                  # two aborts overlapping, then completion
+        ops += parts + ["par abort abort", "complete %s 0 %s" % (allok, br)]
+    return ops
+
+
 def parse(line):
     left, _, right = line.partition(" | ")
     kv = dict(x.split("=", 1) for x in (left + " " + right).split()[1:] if "=" in x)
@@ -300,11 +345,28 @@ def monitor(ops, impl):
         kind = op.split()[0]
         if "panic" in line.split()[:2]:
             return i, kind + "-panics", line[:160]
-        if kind not in ("produce", "complete"):
-            if kind in ("init", "part", "abort", "expire") and "env=none" not in line:
+        if kind == "par":
+            # overlapping requests; at most one of them is a completion (`complete/<list>/<s3Fails>/<broker>`)
+            reqs = op.split()[1:]
+            at = [j for j, r in enumerate(reqs) if r.startswith("complete/")]
+            _, kv = parse(line)
+            sts = kv.get("status", "").split(",")
+            if not at:
+                if "env=none" not in line:
+                    return i, "part-returns-envelope", "overlapping part/abort requests were answered with an envelope"
+                continue
+            if at[0] >= len(sts) or sts[at[0]] != "200":
+                if "env=none" not in line:
+                    return i, "complete-error-with-envelope", "a completion answered %s returned an envelope" % sts[at[0]:at[0] + 1]
+                continue
+            kv["status"] = "200"
+            kind = "complete"
+        elif kind not in ("produce", "complete"):
+            if kind in ("init", "part", "abort", "expire", "lifecycle-abort") and "env=none" not in line:
                 return i, kind + "-returns-envelope", "a %s request was answered with an envelope" % kind
             continue
-        _, kv = parse(line)
+        else:
+            _, kv = parse(line)
         if kv.get("status") != "200":
             continue
         which = "single-request upload" if kind == "produce" else "multipart completion"
@@ -317,7 +379,7 @@ def monitor(ops, impl):
         if kv["sha_is_obj"] != "true":
             return i, kind + "-200-object-sha-differs", "%s answered 200: SHA-256 of the stored object differs from the envelope's sha256" % which
         if kv["acked"] != "true":
-            return i, kind + "-200-without-broker-ack", "%s answered 200 although the broker did not acknowledge the record with error code 0 (%s)" % (which, op.split()[-1])
+            return i, kind + "-200-without-broker-ack", "%s answered 200 although the broker did not acknowledge the record with error code 0 (%s)" % (which, op.split()[-1].split("/")[-1])
         if kv["rec_env"] != "true" or kv["key_ok"] != "true":
             return i, kind + "-200-record-is-not-the-envelope", "%s answered 200 but the produced record / key does not match the returned envelope" % which
     return None
@@ -369,6 +431,11 @@ CORPUS = [
     ["new 0 sha256", "init %d - absent 0 %d:1,7:2" % (MIN_PART + 7, MIN_PART), "par part:1:%d:1:0 part:2:7:2:0" % MIN_PART, "complete 1:ok,2:ok 0 ack"],
     ["new 0 md5", "init %d md5 right 0 %d:1,7:2" % (MIN_PART + 7, MIN_PART), "part 1 %d 1 0" % MIN_PART, "part 2 7 2 0", "part 1 %d 1 0" % MIN_PART,
      "complete 1:ok,2:ok 0 ack"],
+    # the upload id is gone from S3 without having been completed (NoSuchUpload): lifecycle abort; client abort overlapping the completion
+    ["new 0 sha256", "init 7 - absent 0 7:2", "part 1 7 2 0", "lifecycle-abort", "complete 1:ok 0 ack", "abort"],
+    ["new 0 sha256", "init 7 - absent 0 7:2", "part 1 7 2 0", "par abort complete/1:ok/0/ack", "complete 1:ok 0 ack"],
+    ["new 0 sha256", "init 7 - absent 0 7:2", "lifecycle-abort", "part 1 7 2 0", "complete 1:ok 0 ack"],
+    ["new 0 sha256", "init 7 - absent 0 7:2", "part 1 7 2 0", "par complete/1:ok/0/ack abort", "complete 1:ok 0 ack"],
 ]
 
 
@@ -395,6 +462,10 @@ def evaluate(ck, binary, cases):
             ck.count("%s:%s" % (k, kv.get("status", "?")))
             if k == "par":
                 ck.count("par-max-requests-inside-S3-at-once:%s" % kv.get("overlap", "?"))
+            if k == "lifecycle-abort":
+                ck.count("s3-upload-id-gone:lifecycle-abort")
+            if k == "par" and "complete/" in op:
+                ck.count("par-with-completion:%s" % kv.get("status", "?"))
             if k in ("produce", "complete"):
                 bk = op.split()[-1]
                 ck.count("broker:" + (bk.split(":")[0] if not bk.startswith("code:") else
@@ -426,6 +497,7 @@ def hunt(ck, binary):
     ck.log("hunting for a concrete failing input")
     cases = [gen_session_case(ck.rng.fork(), focused=True) for _ in range(120)]
     cases += [gen_par_case(ck.rng.fork(), focused=True) for _ in range(12)]
+    cases += [gen_gone_case(ck.rng.fork(), focused=True) for _ in range(8)]
     cases += [["new 0 sha256"] + ["produce %d %d - absent %s ack" % (n, ck.rng.range(1, 250), f) for n in (MIN_PART, MIN_PART + 7, 2 * MIN_PART + 1)
                                 for f in ("part1.once", "part2.once", "part3.once", "part2.once.before")]]
     cases += [["new 0 sha256"] + ["produce %d %d - %s none %s" % (ck.rng.choice([1, 7, 100]), ck.rng.range(1, 250), ck.rng.choice(["absent", "right"]), b)
@@ -455,11 +527,14 @@ def run(ck):
     n_prod = 80 if ck.quick() else 1500
     n_sess = 60 if ck.quick() else 1200
     n_par = 14 if ck.quick() else 200
+    n_gone = 30 if ck.quick() else 400
     ck.cov["rule"] = ("cases = `new` + 2-5 single-request uploads (body size, algorithm, checksum, S3 fault, broker reply) or one "
                       "multipart session history (init, 1-3 parts with 5 MiB non-final parts, failures/re-PUTs/out-of-order, "
                       "completion list variants, broker replies, abort/expire, repeated completion) or one session whose part "
                       "requests overlap at the S3 UploadPart seam (`par`: same part twice/thrice, different parts, S3 failure + "
-                      "retry, abort) ; S3 faults persistent/transient, after/before S3 read the request body; non-trivial = an object was "
+                      "retry, abort) or one session whose S3 upload id is gone without having been completed when the completion runs "
+                      "(`lifecycle-abort` = S3-side abort at any point; `par abort complete/…` = client abort overlapping a completion that "
+                      "already looked the session up; completion overlapping a part; repeated completions) ; S3 faults persistent/transient, after/before S3 read the request body; non-trivial = an object was "
                       "stored; distinct = distinct op sequences")
     cases = [list(c) for c in CORPUS]
     for _ in range(n_prod):
@@ -468,6 +543,8 @@ def run(ck):
         cases.append(gen_session_case(ck.rng.fork()))
     for _ in range(n_par):
         cases.append(gen_par_case(ck.rng.fork()))
+    for _ in range(n_gone):
+        cases.append(gen_gone_case(ck.rng.fork()))
     evaluate(ck, bins["h"], cases)
     if ck.broken and not ck.violations:
         hunt(ck, bins["h"])
